@@ -161,7 +161,7 @@ func storesTo(pkg *packages.Package, fd *ast.FuncDecl, memPkg string) []storeSit
 						out = append(out, storeSite{s.Pos(), types.ExprString(se.X) + "." + fn.Name(), s, fresh[rootObj(se.X)]})
 					}
 				}
-			case fn.Pkg() != nil && fn.Pkg().Path() == "sort" && len(s.Args) >= 1:
+			case fn.Pkg() != nil && isSortPkg(fn) && len(s.Args) >= 1:
 				if throughMem(&ast.IndexExpr{X: s.Args[0]}) {
 					out = append(out, storeSite{s.Pos(), k + "(" + types.ExprString(s.Args[0]) + ")", s, fresh[rootObj(s.Args[0])]})
 				}
